@@ -307,15 +307,13 @@ fn fixed(h0: u8, len: usize) {
 }
 
 //@ also=C12 tier=quick timeout=1800 mem=12 bits=72 unwind=12 unwindset="memcmp=12" fns=echo_wasm_abi::canonical::dec_value,read_len,read_uint
-//@ bounds="array and map heads with an explicit 1/2/4/8-byte length (0x98..=0x9b, 0xb8..=0xbb) and byte/text string heads 0x58, 0x5a, 0x5b, 0x78, 0x7b, each followed by exactly the length bytes and nothing else; all values of the length bytes"
-//@ desc="C13: a declared element count or string length far beyond the input (up to 2^64-1) is answered with a typed error - no arithmetic overflow, no capacity-overflow panic, no out-of-range slice and no allocation sized by the declared count"
+//@ bounds="array and map heads with an explicit 1/2/4/8-byte length (0x98..=0x9b, 0xb8..=0xbb), each followed by exactly the length bytes and no elements; all values of the length bytes"
+//@ desc="C13: a declared element count far beyond the input (up to 2^64-1) is answered with a typed error - no capacity-overflow panic and no allocation sized by the declared count"
 proof! {
     #[cfg_attr(kani, kani::stub(alloc::fmt::format, crate::stubs::fmt_format))]
     fn c13_abi_declared_count_beyond_input() {
         fixed(0x98, 2); fixed(0x99, 3); fixed(0x9a, 5); fixed(0x9b, 9);
         fixed(0xb8, 2); fixed(0xb9, 3); fixed(0xba, 5); fixed(0xbb, 9);
-        // byte/text strings whose declared length exceeds the input (up to 2^64-1)
-        fixed(0x58, 2); fixed(0x5a, 5); fixed(0x5b, 9); fixed(0x78, 2); fixed(0x7b, 9);
         reach!();
     }
 }
@@ -454,7 +452,7 @@ proof! {
 
 
 // ---- one (head, exact length) case per harness: a single decode + re-encode keeps the query small
-//@ also=C13 tier=quick timeout=900 mem=8 bits=0 unwind=12 unwindset="memcmp=12" fns=echo_wasm_abi::canonical::decode_value,dec_value,read_len,read_uint,echo_wasm_abi::canonical::encode_value,enc_value,enc_int,write_major
+//@ also=C13 tier=quick timeout=900 mem=4 bits=0 unwind=12 unwindset="memcmp=12" fns=echo_wasm_abi::canonical::decode_value,dec_value,read_len,read_uint,echo_wasm_abi::canonical::encode_value,enc_value,enc_int,write_major
 //@ bounds="head 0x00 (uint immediate 0x00) with exactly 0 following byte(s), all values"
 //@ desc="ABI CBOR uint immediate 0x00: accepted => re-encodes to exactly the same 1 byte(s) (non-minimal forms rejected, not normalised); nothing panics"
 proof! {
@@ -462,7 +460,7 @@ proof! {
     fn c12_abi_exact_00() { l1_at(0x00, 1); reach!(); }
 }
 
-//@ also=C13 tier=quick timeout=900 mem=8 bits=0 unwind=12 unwindset="memcmp=12" fns=echo_wasm_abi::canonical::decode_value,dec_value,read_len,read_uint,echo_wasm_abi::canonical::encode_value,enc_value,enc_int,write_major
+//@ also=C13 tier=quick timeout=900 mem=4 bits=0 unwind=12 unwindset="memcmp=12" fns=echo_wasm_abi::canonical::decode_value,dec_value,read_len,read_uint,echo_wasm_abi::canonical::encode_value,enc_value,enc_int,write_major
 //@ bounds="head 0x17 (uint immediate 0x17) with exactly 0 following byte(s), all values"
 //@ desc="ABI CBOR uint immediate 0x17: accepted => re-encodes to exactly the same 1 byte(s) (non-minimal forms rejected, not normalised); nothing panics"
 proof! {
@@ -470,7 +468,7 @@ proof! {
     fn c12_abi_exact_17() { l1_at(0x17, 1); reach!(); }
 }
 
-//@ also=C13 tier=quick timeout=900 mem=8 bits=8 unwind=12 unwindset="memcmp=12" fns=echo_wasm_abi::canonical::decode_value,dec_value,read_len,read_uint,echo_wasm_abi::canonical::encode_value,enc_value,enc_int,write_major
+//@ also=C13 tier=quick timeout=900 mem=4 bits=8 unwind=12 unwindset="memcmp=12" fns=echo_wasm_abi::canonical::decode_value,dec_value,read_len,read_uint,echo_wasm_abi::canonical::encode_value,enc_value,enc_int,write_major
 //@ bounds="head 0x18 (uint, 1-byte argument) with exactly 1 following byte(s), all values"
 //@ desc="ABI CBOR uint, 1-byte argument: accepted => re-encodes to exactly the same 2 byte(s) (non-minimal forms rejected, not normalised); nothing panics"
 proof! {
@@ -478,7 +476,7 @@ proof! {
     fn c12_abi_exact_18() { l1_at(0x18, 2); reach!(); }
 }
 
-//@ also=C13 tier=quick timeout=900 mem=8 bits=16 unwind=12 unwindset="memcmp=12" fns=echo_wasm_abi::canonical::decode_value,dec_value,read_len,read_uint,echo_wasm_abi::canonical::encode_value,enc_value,enc_int,write_major
+//@ also=C13 tier=quick timeout=900 mem=4 bits=16 unwind=12 unwindset="memcmp=12" fns=echo_wasm_abi::canonical::decode_value,dec_value,read_len,read_uint,echo_wasm_abi::canonical::encode_value,enc_value,enc_int,write_major
 //@ bounds="head 0x19 (uint, 2-byte argument) with exactly 2 following byte(s), all values"
 //@ desc="ABI CBOR uint, 2-byte argument: accepted => re-encodes to exactly the same 3 byte(s) (non-minimal forms rejected, not normalised); nothing panics"
 proof! {
@@ -486,7 +484,7 @@ proof! {
     fn c12_abi_exact_19() { l1_at(0x19, 3); reach!(); }
 }
 
-//@ also=C13 tier=quick timeout=900 mem=8 bits=32 unwind=12 unwindset="memcmp=12" fns=echo_wasm_abi::canonical::decode_value,dec_value,read_len,read_uint,echo_wasm_abi::canonical::encode_value,enc_value,enc_int,write_major
+//@ also=C13 tier=quick timeout=900 mem=4 bits=32 unwind=12 unwindset="memcmp=12" fns=echo_wasm_abi::canonical::decode_value,dec_value,read_len,read_uint,echo_wasm_abi::canonical::encode_value,enc_value,enc_int,write_major
 //@ bounds="head 0x1a (uint, 4-byte argument) with exactly 4 following byte(s), all values"
 //@ desc="ABI CBOR uint, 4-byte argument: accepted => re-encodes to exactly the same 5 byte(s) (non-minimal forms rejected, not normalised); nothing panics"
 proof! {
@@ -494,7 +492,7 @@ proof! {
     fn c12_abi_exact_1a() { l1_at(0x1a, 5); reach!(); }
 }
 
-//@ also=C13 tier=quick timeout=900 mem=8 bits=64 unwind=12 unwindset="memcmp=12" fns=echo_wasm_abi::canonical::decode_value,dec_value,read_len,read_uint,echo_wasm_abi::canonical::encode_value,enc_value,enc_int,write_major
+//@ also=C13 tier=quick timeout=900 mem=4 bits=64 unwind=12 unwindset="memcmp=12" fns=echo_wasm_abi::canonical::decode_value,dec_value,read_len,read_uint,echo_wasm_abi::canonical::encode_value,enc_value,enc_int,write_major
 //@ bounds="head 0x1b (uint, 8-byte argument) with exactly 8 following byte(s), all values"
 //@ desc="ABI CBOR uint, 8-byte argument: accepted => re-encodes to exactly the same 9 byte(s) (non-minimal forms rejected, not normalised); nothing panics"
 proof! {
@@ -502,7 +500,7 @@ proof! {
     fn c12_abi_exact_1b() { l1_at(0x1b, 9); reach!(); }
 }
 
-//@ also=C13 tier=quick timeout=900 mem=8 bits=0 unwind=12 unwindset="memcmp=12" fns=echo_wasm_abi::canonical::decode_value,dec_value,read_len,read_uint,echo_wasm_abi::canonical::encode_value,enc_value,enc_int,write_major
+//@ also=C13 tier=quick timeout=900 mem=4 bits=0 unwind=12 unwindset="memcmp=12" fns=echo_wasm_abi::canonical::decode_value,dec_value,read_len,read_uint,echo_wasm_abi::canonical::encode_value,enc_value,enc_int,write_major
 //@ bounds="head 0x20 (nint immediate 0x20) with exactly 0 following byte(s), all values"
 //@ desc="ABI CBOR nint immediate 0x20: accepted => re-encodes to exactly the same 1 byte(s) (non-minimal forms rejected, not normalised); nothing panics"
 proof! {
@@ -510,7 +508,7 @@ proof! {
     fn c12_abi_exact_20() { l1_at(0x20, 1); reach!(); }
 }
 
-//@ also=C13 tier=quick timeout=900 mem=8 bits=8 unwind=12 unwindset="memcmp=12" fns=echo_wasm_abi::canonical::decode_value,dec_value,read_len,read_uint,echo_wasm_abi::canonical::encode_value,enc_value,enc_int,write_major
+//@ also=C13 tier=quick timeout=900 mem=4 bits=8 unwind=12 unwindset="memcmp=12" fns=echo_wasm_abi::canonical::decode_value,dec_value,read_len,read_uint,echo_wasm_abi::canonical::encode_value,enc_value,enc_int,write_major
 //@ bounds="head 0x38 (nint, 1-byte argument) with exactly 1 following byte(s), all values"
 //@ desc="ABI CBOR nint, 1-byte argument: accepted => re-encodes to exactly the same 2 byte(s) (non-minimal forms rejected, not normalised); nothing panics"
 proof! {
@@ -518,7 +516,7 @@ proof! {
     fn c12_abi_exact_38() { l1_at(0x38, 2); reach!(); }
 }
 
-//@ also=C13 tier=quick timeout=900 mem=8 bits=16 unwind=12 unwindset="memcmp=12" fns=echo_wasm_abi::canonical::decode_value,dec_value,read_len,read_uint,echo_wasm_abi::canonical::encode_value,enc_value,enc_int,write_major
+//@ also=C13 tier=quick timeout=900 mem=4 bits=16 unwind=12 unwindset="memcmp=12" fns=echo_wasm_abi::canonical::decode_value,dec_value,read_len,read_uint,echo_wasm_abi::canonical::encode_value,enc_value,enc_int,write_major
 //@ bounds="head 0x39 (nint, 2-byte argument) with exactly 2 following byte(s), all values"
 //@ desc="ABI CBOR nint, 2-byte argument: accepted => re-encodes to exactly the same 3 byte(s) (non-minimal forms rejected, not normalised); nothing panics"
 proof! {
@@ -526,7 +524,7 @@ proof! {
     fn c12_abi_exact_39() { l1_at(0x39, 3); reach!(); }
 }
 
-//@ also=C13 tier=quick timeout=900 mem=8 bits=32 unwind=12 unwindset="memcmp=12" fns=echo_wasm_abi::canonical::decode_value,dec_value,read_len,read_uint,echo_wasm_abi::canonical::encode_value,enc_value,enc_int,write_major
+//@ also=C13 tier=quick timeout=900 mem=4 bits=32 unwind=12 unwindset="memcmp=12" fns=echo_wasm_abi::canonical::decode_value,dec_value,read_len,read_uint,echo_wasm_abi::canonical::encode_value,enc_value,enc_int,write_major
 //@ bounds="head 0x3a (nint, 4-byte argument) with exactly 4 following byte(s), all values"
 //@ desc="ABI CBOR nint, 4-byte argument: accepted => re-encodes to exactly the same 5 byte(s) (non-minimal forms rejected, not normalised); nothing panics"
 proof! {
@@ -534,7 +532,7 @@ proof! {
     fn c12_abi_exact_3a() { l1_at(0x3a, 5); reach!(); }
 }
 
-//@ also=C13 tier=quick timeout=900 mem=8 bits=64 unwind=12 unwindset="memcmp=12" fns=echo_wasm_abi::canonical::decode_value,dec_value,read_len,read_uint,echo_wasm_abi::canonical::encode_value,enc_value,enc_int,write_major
+//@ also=C13 tier=quick timeout=900 mem=4 bits=64 unwind=12 unwindset="memcmp=12" fns=echo_wasm_abi::canonical::decode_value,dec_value,read_len,read_uint,echo_wasm_abi::canonical::encode_value,enc_value,enc_int,write_major
 //@ bounds="head 0x3b (nint, 8-byte argument) with exactly 8 following byte(s), all values"
 //@ desc="ABI CBOR nint, 8-byte argument: accepted => re-encodes to exactly the same 9 byte(s) (non-minimal forms rejected, not normalised); nothing panics"
 proof! {
@@ -542,7 +540,7 @@ proof! {
     fn c12_abi_exact_3b() { l1_at(0x3b, 9); reach!(); }
 }
 
-//@ also=C13 tier=quick timeout=900 mem=8 bits=0 unwind=12 unwindset="memcmp=12" fns=echo_wasm_abi::canonical::decode_value,dec_value,read_len,read_uint,echo_wasm_abi::canonical::encode_value,enc_value,enc_int,write_major
+//@ also=C13 tier=quick timeout=900 mem=4 bits=0 unwind=12 unwindset="memcmp=12" fns=echo_wasm_abi::canonical::decode_value,dec_value,read_len,read_uint,echo_wasm_abi::canonical::encode_value,enc_value,enc_int,write_major
 //@ bounds="head 0xf4 (false) with exactly 0 following byte(s), all values"
 //@ desc="ABI CBOR false: accepted => re-encodes to exactly the same 1 byte(s) (non-minimal forms rejected, not normalised); nothing panics"
 proof! {
@@ -550,7 +548,7 @@ proof! {
     fn c12_abi_exact_f4() { l1_at(0xf4, 1); reach!(); }
 }
 
-//@ also=C13 tier=quick timeout=900 mem=8 bits=0 unwind=12 unwindset="memcmp=12" fns=echo_wasm_abi::canonical::decode_value,dec_value,read_len,read_uint,echo_wasm_abi::canonical::encode_value,enc_value,enc_int,write_major
+//@ also=C13 tier=quick timeout=900 mem=4 bits=0 unwind=12 unwindset="memcmp=12" fns=echo_wasm_abi::canonical::decode_value,dec_value,read_len,read_uint,echo_wasm_abi::canonical::encode_value,enc_value,enc_int,write_major
 //@ bounds="head 0xf5 (true) with exactly 0 following byte(s), all values"
 //@ desc="ABI CBOR true: accepted => re-encodes to exactly the same 1 byte(s) (non-minimal forms rejected, not normalised); nothing panics"
 proof! {
@@ -558,7 +556,7 @@ proof! {
     fn c12_abi_exact_f5() { l1_at(0xf5, 1); reach!(); }
 }
 
-//@ also=C13 tier=quick timeout=900 mem=8 bits=0 unwind=12 unwindset="memcmp=12" fns=echo_wasm_abi::canonical::decode_value,dec_value,read_len,read_uint,echo_wasm_abi::canonical::encode_value,enc_value,enc_int,write_major
+//@ also=C13 tier=quick timeout=900 mem=4 bits=0 unwind=12 unwindset="memcmp=12" fns=echo_wasm_abi::canonical::decode_value,dec_value,read_len,read_uint,echo_wasm_abi::canonical::encode_value,enc_value,enc_int,write_major
 //@ bounds="head 0xf6 (null) with exactly 0 following byte(s), all values"
 //@ desc="ABI CBOR null: accepted => re-encodes to exactly the same 1 byte(s) (non-minimal forms rejected, not normalised); nothing panics"
 proof! {
@@ -566,7 +564,7 @@ proof! {
     fn c12_abi_exact_f6() { l1_at(0xf6, 1); reach!(); }
 }
 
-//@ also=C13 tier=quick timeout=900 mem=8 bits=0 unwind=12 unwindset="memcmp=12" fns=echo_wasm_abi::canonical::decode_value,dec_value,read_len,read_uint,echo_wasm_abi::canonical::encode_value,enc_value,enc_int,write_major
+//@ also=C13 tier=quick timeout=900 mem=4 bits=0 unwind=12 unwindset="memcmp=12" fns=echo_wasm_abi::canonical::decode_value,dec_value,read_len,read_uint,echo_wasm_abi::canonical::encode_value,enc_value,enc_int,write_major
 //@ bounds="head 0x40 (empty byte string) with exactly 0 following byte(s), all values"
 //@ desc="ABI CBOR empty byte string: accepted => re-encodes to exactly the same 1 byte(s) (non-minimal forms rejected, not normalised); nothing panics"
 proof! {
@@ -574,7 +572,7 @@ proof! {
     fn c12_abi_exact_40() { l1_at(0x40, 1); reach!(); }
 }
 
-//@ also=C13 tier=quick timeout=900 mem=8 bits=16 unwind=12 unwindset="memcmp=12" fns=echo_wasm_abi::canonical::decode_value,dec_value,read_len,read_uint,echo_wasm_abi::canonical::encode_value,enc_value,enc_int,write_major
+//@ also=C13 tier=quick timeout=900 mem=4 bits=16 unwind=12 unwindset="memcmp=12" fns=echo_wasm_abi::canonical::decode_value,dec_value,read_len,read_uint,echo_wasm_abi::canonical::encode_value,enc_value,enc_int,write_major
 //@ bounds="head 0x42 (2-byte byte string) with exactly 2 following byte(s), all values"
 //@ desc="ABI CBOR 2-byte byte string: accepted => re-encodes to exactly the same 3 byte(s) (non-minimal forms rejected, not normalised); nothing panics"
 proof! {
@@ -593,7 +591,7 @@ fn must_reject(head: u8, len: usize) {
     }
 }
 
-//@ also=C13 tier=quick timeout=1500 mem=12 bits=300 unwind=12 unwindset="memcmp=12" fns=echo_wasm_abi::canonical::decode_value,dec_value,read_len
+//@ also=C13 tier=off timeout=1500 mem=12 bits=300 unwind=12 unwindset="memcmp=12" fns=echo_wasm_abi::canonical::decode_value,dec_value,read_len
 //@ bounds="items cut short, reserved/indefinite additional info, tags and unsupported simple values/floats - 16 (head, length) cases, every other byte symbolic"
 //@ desc="ABI CBOR rejects malformed heads: truncated items, reserved/indefinite lengths, tags and unsupported simple values are typed errors, never accepted, never a panic"
 proof! {
@@ -604,7 +602,7 @@ proof! {
     }
 }
 
-//@ also=C13 tier=quick timeout=900 mem=8 bits=8 unwind=12 unwindset="memcmp=12" fns=echo_wasm_abi::canonical::decode_value,dec_value,read_len
+//@ also=C13 tier=off timeout=900 mem=4 bits=8 unwind=12 unwindset="memcmp=12" fns=echo_wasm_abi::canonical::decode_value,dec_value,read_len
 //@ bounds="head 0x00 followed by its argument and exactly one trailing byte, all values"
 //@ desc="ABI CBOR: a byte trailing an immediate integer is rejected, never ignored"
 proof! {
@@ -612,7 +610,7 @@ proof! {
     fn c12_abi_trailing_00() { must_reject(0x00, 2); reach!(); }
 }
 
-//@ also=C13 tier=quick timeout=900 mem=8 bits=16 unwind=12 unwindset="memcmp=12" fns=echo_wasm_abi::canonical::decode_value,dec_value,read_len
+//@ also=C13 tier=off timeout=900 mem=4 bits=16 unwind=12 unwindset="memcmp=12" fns=echo_wasm_abi::canonical::decode_value,dec_value,read_len
 //@ bounds="head 0x18 followed by its argument and exactly one trailing byte, all values"
 //@ desc="ABI CBOR: a byte trailing a 1-byte-argument integer is rejected, never ignored"
 proof! {
@@ -620,7 +618,7 @@ proof! {
     fn c12_abi_trailing_18() { must_reject(0x18, 3); reach!(); }
 }
 
-//@ also=C13 tier=quick timeout=900 mem=8 bits=8 unwind=12 unwindset="memcmp=12" fns=echo_wasm_abi::canonical::decode_value,dec_value,read_len
+//@ also=C13 tier=off timeout=900 mem=4 bits=8 unwind=12 unwindset="memcmp=12" fns=echo_wasm_abi::canonical::decode_value,dec_value,read_len
 //@ bounds="head 0xf6 followed by its argument and exactly one trailing byte, all values"
 //@ desc="ABI CBOR: a byte trailing null is rejected, never ignored"
 proof! {
@@ -628,7 +626,7 @@ proof! {
     fn c12_abi_trailing_f6() { must_reject(0xf6, 2); reach!(); }
 }
 
-//@ also=C13 tier=quick timeout=900 mem=8 bits=8 unwind=12 unwindset="memcmp=12" fns=echo_wasm_abi::canonical::decode_value,dec_value,read_len
+//@ also=C13 tier=off timeout=900 mem=4 bits=8 unwind=12 unwindset="memcmp=12" fns=echo_wasm_abi::canonical::decode_value,dec_value,read_len
 //@ bounds="head 0x40 followed by its argument and exactly one trailing byte, all values"
 //@ desc="ABI CBOR: a byte trailing an empty byte string is rejected, never ignored"
 proof! {
@@ -636,3 +634,32 @@ proof! {
     fn c12_abi_trailing_40() { must_reject(0x40, 2); reach!(); }
 }
 
+
+/// Head with the 8-byte length 0xffff_ffff_ffff_ffff (the largest declarable length/count),
+/// followed by `extra` symbolic bytes. The length is concrete on purpose: a symbolic 64-bit
+/// allocation size makes CBMC model an allocation of symbolic size (see
+/// `c13_abi_declared_count_beyond_input`, which covers all lengths on code that bounds its
+/// allocations, and runs out of memory on code that does not).
+#[inline(always)]
+fn max_len(h0: u8, extra: usize) {
+    let mut buf: [u8; N] = kani::any();
+    buf[0] = h0;
+    let mut i = 1;
+    while i < 9 { buf[i] = 0xff; i += 1; }
+    match decode_value(&buf[..9 + extra]) {
+        Ok(v) => { core::mem::forget(v); assert!(false, "ABI CBOR: item declaring 2^64-1 bytes/elements accepted"); }
+        Err(e) => core::mem::forget(e),
+    }
+}
+
+//@ also=C12 tier=off timeout=900 mem=10 bits=8 unwind=12 unwindset="memcmp=12" fns=echo_wasm_abi::canonical::dec_value,read_len,need
+//@ bounds="byte-string, text-string, array and map heads declaring the length/count 2^64-1, followed by 0 or 1 further (symbolic) byte"
+//@ desc="C13: the largest declarable length never overflows the offset arithmetic, indexes out of range, overflows a capacity or panics - it is a typed error"
+proof! {
+    #[cfg_attr(kani, kani::stub(alloc::fmt::format, crate::stubs::fmt_format))]
+    fn c13_abi_length_u64_max() {
+        max_len(0x5b, 0); max_len(0x5b, 1); max_len(0x7b, 0); max_len(0x7b, 1);
+        max_len(0x9b, 0); max_len(0x9b, 1); max_len(0xbb, 0); max_len(0xbb, 1);
+        reach!();
+    }
+}
